@@ -168,3 +168,7 @@ try:
     TABLE.update(cli_checks.TABLE)
 except ImportError:
     pass
+from . import c11 as _c11
+TABLE["C11"] = _c11.c11
+from . import c10 as _c10
+TABLE["C10"] = _c10.c10
